@@ -252,6 +252,41 @@ theorem pathParams_no_semi (scheme path : Str) (h : ';' ∉ path) : pathParams s
   unfold pathParams
   simp only [Bool.and_eq_true, List.contains_iff_mem, h, and_false, if_false]
 
+/-- **`urljoin(BASE, "/…?query")`** for a path-absolute reference without `.`/`..` segments, `#`,
+TAB, CR, LF, whose `;params` (split from the last segment by `urlparse`) are put back as they
+were: the base followed by the reference -/
+theorem urljoin_base_abs_params (p' q a b : Str) (hns : p'.head? ≠ some '/')
+    (hp : ∀ c ∈ '/' :: p', pathChar c = true)
+    (hq : ∀ c ∈ q, queryChar c = true)
+    (hpar : pathParams httpsL ('/' :: p') = (a, b))
+    (hre : (if b ≠ [] then a ++ ';' :: b else a) = '/' :: p')
+    (ha : startsWith a ['/'] = true)
+    (hdots : ∀ s ∈ splitOn a '/', isDotSeg s = false) :
+    urljoin BASE ('/' :: p' ++ qs q) = some (BASE ++ ('/' :: p' ++ qs q)) := by
+  unfold urljoin
+  have hb : BASE ≠ [] := by decide
+  have hu : ('/' :: p' ++ qs q) ≠ [] := by simp
+  simp only [hb, hu, if_false, urlsplit_BASE, urlsplit_abs_path p' q httpsL hns hp hq]
+  rw [hpar, pathParams_no_semi _ [] (by simp)]
+  have t1 : inTable usesRelative httpsL = true := by decide
+  have t2 : inTable usesNetloc20 httpsL = true := by decide
+  have hane : a ≠ [] := by intro e; rw [e] at ha; simp [startsWith, List.isPrefixOf] at ha
+  have hj : join ['/'] (resolveSegments (splitOn a '/')) = a := by
+    rw [resolveSegments_of_no_dots _ hdots, join_splitOn]
+  simp only [t1, t2, ha, hj, hane, ne_eq, not_true_eq_false, decide_false, Bool.not_true, Bool.or_self,
+    Bool.false_eq_true, if_false, Bool.and_false, reduceCtorEq, Bool.false_and, if_true]
+  unfold urlunparse
+  have hre' : (if b ≠ [] then a ++ ';' :: b else a) = '/' :: p' := hre
+  simp only [ne_eq] at hre'
+  rw [hre']
+  unfold urlunsplit20
+  rw [BASE_eq]
+  by_cases hqe : q = []
+  · subst hqe
+    simp [qs, hostL, httpsL, startsWith, List.isPrefixOf]
+  · have : q.isEmpty = false := by simpa using hqe
+    simp [qs, this, hqe, hostL, httpsL, startsWith, List.isPrefixOf]
+
 /-- **`urljoin(BASE, "/…?query")`** for a path-absolute reference without `;`, `.`/`..`
 segments, `#`, TAB, CR, LF: the base followed by the reference -/
 theorem urljoin_base_abs (p' q : Str) (hns : p'.head? ≠ some '/')
@@ -259,27 +294,86 @@ theorem urljoin_base_abs (p' q : Str) (hns : p'.head? ≠ some '/')
     (hq : ∀ c ∈ q, queryChar c = true)
     (hdots : ∀ s ∈ splitOn ('/' :: p') '/', isDotSeg s = false) :
     urljoin BASE ('/' :: p' ++ qs q) = some (BASE ++ ('/' :: p' ++ qs q)) := by
-  unfold urljoin
-  have hb : BASE ≠ [] := by decide
-  have hu : ('/' :: p' ++ qs q) ≠ [] := by simp
-  simp only [hb, hu, if_false, urlsplit_BASE, urlsplit_abs_path p' q httpsL hns hp hq]
   have hsemi' : ';' ∉ '/' :: p' := by simp [hsemi]
-  rw [pathParams_no_semi _ _ hsemi', pathParams_no_semi _ [] (by simp)]
-  have t1 : inTable usesRelative httpsL = true := by decide
-  have t2 : inTable usesNetloc20 httpsL = true := by decide
-  have hsw : startsWith ('/' :: p') ['/'] = true := by simp [startsWith, List.isPrefixOf]
-  have hj : join ['/'] (resolveSegments (splitOn ('/' :: p') '/')) = '/' :: p' := by
-    rw [resolveSegments_of_no_dots _ hdots, join_splitOn]
-  simp only [t1, t2, hsw, hj, ne_eq, not_true_eq_false, decide_false, Bool.not_true, Bool.or_self,
-    Bool.false_eq_true, if_false, Bool.and_false, reduceCtorEq, Bool.false_and, if_true]
-  unfold urlunparse urlunsplit20
-  rw [BASE_eq]
-  have hst : startsWith ('/' :: p') ['/'] = true := hsw
-  by_cases hqe : q = []
-  · subst hqe
-    simp [qs, hostL, httpsL, startsWith, List.isPrefixOf]
-  · have : q.isEmpty = false := by simpa using hqe
-    simp [qs, this, hqe, hostL, httpsL, startsWith, List.isPrefixOf]
+  exact urljoin_base_abs_params p' q ('/' :: p') [] hns hp hq (pathParams_no_semi _ _ hsemi') (by simp)
+    (by simp [startsWith, List.isPrefixOf]) hdots
+
+/-! ### `urlparse`'s params: split from the last segment at its first `;` -/
+
+theorem splitLast_append_seg (r n : Str) (hn : '/' ∉ n) : splitLast (r ++ '/' :: n) '/' = (some r, n) := by
+  unfold splitLast
+  rw [span_eq_s20]
+  have hrev : (r ++ '/' :: n).reverse = n.reverse ++ '/' :: r.reverse := by simp
+  rw [hrev]
+  have hall : ∀ c ∈ n.reverse, (decide (c ≠ '/')) = true := by
+    intro c hc
+    have : c ∈ n := by simpa using hc
+    simp only [decide_eq_true_eq]
+    intro e; exact hn (e ▸ this)
+  rw [List.takeWhile_append_of_pos hall, List.dropWhile_append_of_pos hall]
+  simp
+
+/-- the params step on a path whose last segment is `n`: the segment is cut at its first `;` -/
+theorem pathParams_last (r n : Str) (hn : '/' ∉ n) :
+    pathParams httpsL (r ++ '/' :: n) = (r ++ '/' :: (splitFirst n ';').1, ((splitFirst n ';').2).getD []) := by
+  unfold pathParams
+  have t : inTable usesParams httpsL = true := by decide
+  simp only [t, Bool.true_and]
+  have hspec := splitFirst_spec_s20 n ';'
+  by_cases hc : (r ++ '/' :: n).contains ';' = true
+  · simp only [hc, if_true]
+    unfold splitparams
+    rw [splitLast_append_seg r n hn]
+    simp only
+    cases hsf : splitFirst n ';' with
+    | mk x ob =>
+      cases ob with
+      | none =>
+        rw [hsf] at hspec
+        simp only at hspec
+        simp only [Option.getD_none]
+        rw [hspec.2]
+      | some y => simp
+  · simp only [hc, Bool.false_eq_true, if_false]
+    have : ';' ∉ n := by
+      intro hm
+      apply hc
+      simp [hm]
+    rw [splitFirst_notMem_s20 n ';' this]
+    rfl
+
+/-- what `lastSemiOk n` says: the part of `n` before its first `;` is no dot segment, the part
+after it (if any) is not empty, and putting `;params` back when they are not empty gives `n` -/
+theorem lastSemiOk_spec {n : Str} (h : lastSemiOk n = true) :
+    isDotSeg (splitFirst n ';').1 = false ∧ (splitFirst n ';').2 ≠ some [] ∧
+    (if ((splitFirst n ';').2).getD [] ≠ [] then (splitFirst n ';').1 ++ ';' :: ((splitFirst n ';').2).getD []
+     else (splitFirst n ';').1) = n ∧
+    ∀ c ∈ (splitFirst n ';').1, c ∈ n := by
+  unfold lastSemiOk at h
+  simp only [Bool.and_eq_true, Bool.not_eq_true', decide_eq_true_eq] at h
+  have hspec := splitFirst_spec_s20 n ';'
+  refine ⟨h.1, h.2, ?_, ?_⟩
+  · cases hb : (splitFirst n ';').2 with
+    | none =>
+      rw [hb] at hspec
+      simp only [Option.getD_none, ne_eq, not_true_eq_false, if_false]
+      exact hspec.2.symm
+    | some y =>
+      rw [hb] at hspec
+      have hy : y ≠ [] := by intro e; apply h.2; rw [hb, e]
+      simp only [Option.getD_some, ne_eq, hy, not_false_eq_true, if_true]
+      exact hspec.2.symm
+  · intro c hc
+    cases hb : (splitFirst n ';').2 with
+    | none => rw [hb] at hspec; rw [hspec.2]; exact hc
+    | some y => rw [hb] at hspec; rw [hspec.2]; simp [hc]
+
+/-- the params step on a path whose last segment `n` is `lastSemiOk` -/
+theorem params_of_last (r n : Str) (hn : '/' ∉ n) (hsemi : lastSemiOk n = true) :
+    ∃ x y, pathParams httpsL (r ++ '/' :: n) = (r ++ '/' :: x, y) ∧
+      (if y ≠ [] then x ++ ';' :: y else x) = n ∧ isDotSeg x = false ∧ ∀ c ∈ x, c ∈ n := by
+  obtain ⟨hdot, _, hspec, hx⟩ := lastSemiOk_spec hsemi
+  exact ⟨_, _, pathParams_last r n hn, hspec, hdot, hx⟩
 
 /-- `"groups"` as explicit characters -/
 def groupsL : Str := ['g', 'r', 'o', 'u', 'p', 's']
@@ -288,8 +382,8 @@ theorem groupsL_eq : groupsL = "groups".toList := by decide
 
 /-- **`urljoin(BASE, "groups/" + h)`** (the builder of `FacebookGroup` gives a *relative*
 reference) for a one-segment `h` -/
-theorem urljoin_base_groups (h : Str) (hp : ∀ c ∈ h, pathChar c = true) (hsemi : ';' ∉ h)
-    (hslash : '/' ∉ h) (hdot : isDotSeg h = false) :
+theorem urljoin_base_groups (h : Str) (hp : ∀ c ∈ h, pathChar c = true) (hsemi : lastSemiOk h = true)
+    (hslash : '/' ∉ h) :
     urljoin BASE (groupsL ++ '/' :: h) = some (BASE ++ ('/' :: groupsL ++ '/' :: h)) := by
   have hpath : ∀ c ∈ groupsL ++ '/' :: h, pathChar c = true := by
     intro c hc
@@ -333,18 +427,18 @@ theorem urljoin_base_groups (h : Str) (hp : ∀ c ∈ h, pathChar c = true) (hse
   have hb : BASE ≠ [] := by decide
   have hu : (groupsL ++ '/' :: h) ≠ [] := by simp [groupsL]
   simp only [hb, hu, if_false, urlsplit_BASE, hus]
-  have hsemi' : ';' ∉ groupsL ++ '/' :: h := by
-    simp only [List.mem_append, List.mem_cons, not_or]
-    exact ⟨by decide, by decide, hsemi⟩
-  rw [pathParams_no_semi _ _ hsemi', pathParams_no_semi _ [] (by simp)]
+  obtain ⟨x, y, hpar, hre0, hdot, hx⟩ := params_of_last groupsL h hslash hsemi
+  rw [hpar, pathParams_no_semi _ [] (by simp)]
   have t1 : inTable usesRelative httpsL = true := by decide
   have t2 : inTable usesNetloc20 httpsL = true := by decide
-  have hsw : startsWith (groupsL ++ '/' :: h) ['/'] = false := by simp [groupsL, startsWith, List.isPrefixOf]
-  have hsp : splitOn (groupsL ++ '/' :: h) '/' = [groupsL, h] := by
-    rw [splitOn_append_sep '/' groupsL h (by decide), splitOn_of_not_mem '/' h hslash]
-  have hsegs : filterInner (([[]] : List Str) ++ [groupsL, h]) = [[], groupsL, h] := by
+  have hxs : '/' ∉ x := fun hm => hslash (hx _ hm)
+  have hsw : startsWith (groupsL ++ '/' :: x) ['/'] = false := by
+    simp [groupsL, startsWith, List.isPrefixOf]
+  have hsp : splitOn (groupsL ++ '/' :: x) '/' = [groupsL, x] := by
+    rw [splitOn_append_sep '/' groupsL _ (by decide), splitOn_of_not_mem '/' _ hxs]
+  have hsegs : filterInner (([[]] : List Str) ++ [groupsL, x]) = [[], groupsL, x] := by
     simp [filterInner, groupsL]
-  have hres : resolveSegments [[], groupsL, h] = [[], groupsL, h] := by
+  have hres : resolveSegments [[], groupsL, x] = [[], groupsL, x] := by
     apply resolveSegments_of_no_dots
     intro s hs
     simp only [List.mem_cons, List.not_mem_nil, or_false] at hs
@@ -352,12 +446,23 @@ theorem urljoin_base_groups (h : Str) (hp : ∀ c ∈ h, pathChar c = true) (hse
     · rw [hs]; decide
     · rw [hs]; decide
     · rw [hs]; exact hdot
-  have hj : join ['/'] [[], groupsL, h] = '/' :: groupsL ++ '/' :: h := by simp [join]
+  have hj : join ['/'] [[], groupsL, x] = '/' :: groupsL ++ '/' :: x := by simp [join]
   have hbp : splitOn ([] : Str) '/' = [[]] := splitOn_nil '/'
+  have hne1 : ¬ (groupsL ++ '/' :: x = []) := by simp [groupsL]
   simp only [t1, t2, hsw, hsp, hbp, ne_eq, not_true_eq_false, decide_false, Bool.not_true, Bool.or_self,
-    Bool.false_eq_true, if_false, Bool.and_false, if_true,
+    Bool.false_eq_true, if_false, Bool.and_false, if_true, hne1, Bool.false_and,
     List.getLast?_singleton, hsegs, hres, hj]
-  unfold urlunparse urlunsplit20
+  unfold urlunparse
+  have hre : (if y ≠ [] then ('/' :: groupsL ++ '/' :: x) ++ ';' :: y else '/' :: groupsL ++ '/' :: x)
+      = '/' :: groupsL ++ '/' :: h := by
+    rw [← hre0]
+    by_cases hy : y = []
+    · simp [hy]
+    · simp [hy]
+  have hne2 : ¬ ('/' :: groupsL ++ '/' :: x = []) := by simp
+  simp only [hne2, if_false]
+  rw [hre]
+  unfold urlunsplit20
   rw [BASE_eq]
   simp [hostL, httpsL, groupsL, startsWith, List.isPrefixOf]
 
